@@ -21,6 +21,18 @@ bases, once per occurrence -/
 def subclasses (classes : List (Nat × List (Option Nat))) (b : Nat) : List Nat :=
   classes.flatMap fun (c, bases) => (bases.filter (· == some b)).map fun _ => c
 
+/-! ## interface back-references (`extensions.zopeinterface._handle_implemented`) -/
+
+/-- `if implementer not in iface.implementedby_directly: iface.implementedby_directly.append(implementer)` -/
+def addNew (acc : List Nat) (x : Nat) : List Nat := if x ∈ acc then acc else acc ++ [x]
+
+/-- `iface.implementedby_directly` after post-processing. `decls` lists, in processing order, every
+declaration "implementer `x` names an interface": `(x, some i)` when the name leads (through
+`find_object`) to the interface class `i`, `(x, none)` when it leads to nothing or to something that is
+not an interface (reported, no back-reference) -/
+def implementedBy (decls : List (Nat × Option Nat)) (i : Nat) : List Nat :=
+  ((decls.filter (·.2 == some i)).map (·.1)).foldl addNew []
+
 /-! ## kinds of inherited attributes -/
 
 inductive Kind | classVar | instVar | other
